@@ -1,18 +1,829 @@
+(* Proofs about Model/Autofill.v against Model/AutofillSpec.v (C07). *)
 From Coq Require Import ZArith List Bool Lia ZifyBool.
-From VC2 Require Import Base.PyZ Gen.StateRec Gen.ParseCodes Gen.Version Gen.Consts Model.Autofill.
+From VC2 Require Import Base.PyZ Gen.StateRec Gen.ParseCodes Gen.Version Gen.Consts Model.Autofill Model.AutofillSpec.
 Import ListNotations.
 Open Scope Z_scope.
+Ltac Zify.zify_post_hook ::= Z.to_euclidean_division_equations.
+Ltac splits := repeat match goal with |- _ /\ _ => split end.
 
+(* ---------- generic list lemmas ---------- *)
+Lemma Forall2_refl_on {A} (R : A -> A -> Prop) : (forall x, R x x) -> forall l, Forall2 R l l.
+Proof. intros H l; induction l; constructor; auto. Qed.
 
-(* Proofs about Model/Autofill.v (C07). *)
-Lemma po_unit_explicit_npo : forall d u v, u_npo u = Explicit v ->
-  u_npo (m_unit (po_unit d u)) = Explicit v /\ m_npo_todo (po_unit d u) = false.
+Lemma Forall2_trans {A} (R : A -> A -> Prop) :
+  (forall x y z, R x y -> R y z -> R x z) ->
+  forall l1 l2 l3, Forall2 R l1 l2 -> Forall2 R l2 l3 -> Forall2 R l1 l3.
 Proof.
-  intros d u v Hn. unfold po_unit.
-  assert (Hp : po_padaux d u = Explicit v).
-  { unfold po_padaux. rewrite Hn. cbn [is_autoish].
-    destruct (u_parse_code u) as [pc|]; [|reflexivity].
-    destruct (pc =? PC_AUXILIARY_DATA); [reflexivity|]. destruct (pc =? PC_PADDING_DATA); reflexivity. }
-  rewrite Hp. cbn [is_autoish m_unit m_npo_todo].
-  destruct (is_autoish (u_ppo u)); cbn; auto.
+  intros HT l1 l2 l3 H12; revert l3; induction H12; intros l3 H23; inversion H23; subst; constructor; eauto.
+Qed.
+
+Lemma Forall2_map_r {A B} (R : A -> B -> Prop) (f : A -> B) :
+  (forall x, R x (f x)) -> forall l, Forall2 R l (map f l).
+Proof. intros H l; induction l; cbn; constructor; auto. Qed.
+
+(* ---------- preservation relation ---------- *)
+Lemma af_pres_refl f : af_pres f f.
+Proof. intros v H; exact H. Qed.
+Lemma af_pres_trans f g h : af_pres f g -> af_pres g h -> af_pres f h.
+Proof. intros H1 H2 v H; auto. Qed.
+Lemma tp_pres_refl t : tp_pres t t.
+Proof. split; auto. Qed.
+Lemma tp_pres_trans a b c : tp_pres a b -> tp_pres b c -> tp_pres a c.
+Proof.
+  intros [H1 H2] [H3 H4]; split; [congruence|].
+  destruct H4 as [H4|H4]; [|auto]. destruct H2 as [H2|H2]; [left|right]; congruence.
+Qed.
+Lemma sh_pres_refl h : sh_pres h h.
+Proof. unfold sh_pres; splits; auto using af_pres_refl. Qed.
+Lemma sh_pres_trans a b c : sh_pres a b -> sh_pres b c -> sh_pres a c.
+Proof.
+  unfold sh_pres; intros (A1&A2&A3&A4&A5&A6&A7&A8) (B1&B2&B3&B4&B5&B6&B7&B8).
+  splits; try congruence. eapply af_pres_trans; eauto.
+Qed.
+Lemma unit_pres_refl u : unit_pres u u.
+Proof. unfold unit_pres; splits; auto using af_pres_refl, sh_pres_refl, tp_pres_refl. Qed.
+Lemma unit_pres_trans a b c : unit_pres a b -> unit_pres b c -> unit_pres a c.
+Proof.
+  unfold unit_pres.
+  intros (A1&A2&A3&A4&A5&A6&A7&A8&A9&A10&A11&A12) (B1&B2&B3&B4&B5&B6&B7&B8&B9&B10&B11&B12).
+  splits; try congruence; eauto using af_pres_trans, sh_pres_trans, tp_pres_trans.
+Qed.
+
+Definition stream_pres := Forall2 (Forall2 unit_pres).
+Lemma stream_pres_trans a b c : stream_pres a b -> stream_pres b c -> stream_pres a c.
+Proof.
+  apply Forall2_trans. intros x y z. apply Forall2_trans. apply unit_pres_trans.
+Qed.
+
+(* ---------- picture numbers: preservation ---------- *)
+Lemma pn_unit_pres d last u : unit_pres u (fst (pn_unit d last u)).
+Proof.
+  unfold pn_unit. destruct (pn_kind u) eqn:K; cbn [fst]; try apply unit_pres_refl.
+  - unfold unit_pres; cbn. splits; auto using af_pres_refl, sh_pres_refl, tp_pres_refl.
+    intros v Hv. unfold pn_value, pn_field. rewrite K, Hv. reflexivity.
+  - unfold unit_pres; cbn. splits; auto using af_pres_refl, sh_pres_refl, tp_pres_refl.
+    intros v Hv. unfold pn_value, pn_field. rewrite K, Hv. reflexivity.
+Qed.
+
+Lemma pn_seq_pres d : forall us last, Forall2 unit_pres us (pn_seq d last us).
+Proof.
+  induction us as [|u r IH]; intros last; cbn [pn_seq]; [constructor|].
+  pose proof (pn_unit_pres d last u) as H. destruct (pn_unit d last u) as [u' l']. constructor; auto.
+Qed.
+
+(* ---------- major version: preservation ---------- *)
+Lemma tp_pres_drop t : tp_pres t (drop_etp t).
+Proof. split; [reflexivity | right; reflexivity]. Qed.
+Lemma drop_unit_etp_pres d u : unit_pres u (drop_unit_etp d u).
+Proof.
+  unfold drop_unit_etp. destruct (tp_select d u); try apply unit_pres_refl;
+  unfold unit_pres; cbn; splits; auto using af_pres_refl, sh_pres_refl, tp_pres_refl, tp_pres_drop.
+Qed.
+
+Lemma mv_fill_pres d mv : forall us b, Forall2 unit_pres us (mv_fill d mv b us).
+Proof.
+  induction us as [|u r IH]; intros b; cbn [mv_fill]; [constructor|].
+  destruct (eff_parse_code d u =? PC_SEQUENCE_HEADER).
+  - destruct (mv_is_auto d (sh_major_version (u_sh u))) eqn:A; constructor; auto using unit_pres_refl.
+    unfold unit_pres, sh_pres; cbn. splits; auto using af_pres_refl, tp_pres_refl.
+    intros v Hv. rewrite Hv in A. discriminate.
+  - constructor; auto. destruct (b && (mv <? 3)); auto using unit_pres_refl, drop_unit_etp_pres.
+Qed.
+
+(* ---------- parse offsets: preservation ---------- *)
+Lemma po_padaux_pres d u : af_pres (u_npo u) (po_padaux d u).
+Proof.
+  intros v Hv. unfold po_padaux. rewrite Hv. cbn [is_autoish].
+  destruct (u_parse_code u) as [pc|]; [|reflexivity].
+  destruct (pc =? PC_AUXILIARY_DATA); [reflexivity|]. destruct (pc =? PC_PADDING_DATA); reflexivity.
+Qed.
+
+Lemma po_unit_pres d u : unit_pres u (m_unit (po_unit d u)).
+Proof.
+  unfold po_unit. cbn [m_unit].
+  pose proof (po_padaux_pres d u) as Hp.
+  destruct (is_autoish (u_ppo u)) eqn:Pp;
+  unfold unit_pres; cbn; splits; auto using af_pres_refl, sh_pres_refl, tp_pres_refl.
+  - intros v Hv. specialize (Hp v Hv). rewrite Hp. reflexivity.
+  - intros v Hv. rewrite Hv in Pp. discriminate.
+  - intros v Hv. specialize (Hp v Hv). rewrite Hp. reflexivity.
+Qed.
+
+(* ---------- finalize: positions only matter through their differences ---------- *)
+Definition fin_unit (m : marked) (npo ppo : Z) : dunit :=
+  let u1 := if m_npo_todo m then set_npo (m_unit m) (Explicit npo) else m_unit m in
+  if m_ppo_todo m then set_ppo u1 (Explicit ppo) else u1.
+
+(* prev = length of the previous unit of the sequence *)
+Fixpoint fin_len (prev : option Z) (ms : list marked) : list dunit :=
+  match ms with
+  | [] => []
+  | m :: r =>
+      fin_unit m (match r with [] => 0 | _ => u_len (m_unit m) end)
+                 (match prev with None => 0 | Some p => p end)
+      :: fin_len (Some (u_len (m_unit m))) r
+  end.
+
+Lemma seq_offsets_length : forall ms start, length (fst (seq_offsets start ms)) = length ms.
+Proof.
+  induction ms as [|m r IH]; intros start; cbn [seq_offsets]; [reflexivity|].
+  specialize (IH (start + u_len (m_unit m))). destruct (seq_offsets (start + u_len (m_unit m)) r). cbn in *. lia.
+Qed.
+
+(* the recorded positions are the running sum of the unit lengths *)
+Lemma seq_offsets_positions : forall ms start pre m post,
+  ms = pre ++ m :: post ->
+  nth_error (fst (seq_offsets start ms)) (length pre) =
+    Some (start + fold_right Z.add 0 (map (fun x => u_len (m_unit x)) pre)).
+Proof.
+  intros ms start pre; revert ms start; induction pre as [|p pre IH]; intros ms start m post ->.
+  - cbn. destruct (seq_offsets (start + u_len (m_unit m)) post). cbn. f_equal. lia.
+  - cbn [app seq_offsets]. specialize (IH (pre ++ m :: post) (start + u_len (m_unit p)) m post eq_refl).
+    destruct (seq_offsets (start + u_len (m_unit p)) (pre ++ m :: post)). cbn in *. rewrite IH. f_equal. lia.
+Qed.
+
+Lemma fin_seq_len : forall ms start prevo,
+  fin_seq prevo (combine ms (fst (seq_offsets start ms))) =
+  fin_len (match prevo with None => None | Some p => Some (start - p) end) ms.
+Proof.
+  induction ms as [|m r IH]; intros start prevo; [reflexivity|].
+  cbn [seq_offsets]. specialize (IH (start + u_len (m_unit m)) (Some start)).
+  destruct (seq_offsets (start + u_len (m_unit m)) r) as [os e] eqn:E. cbn [fst combine fin_seq fin_len] in *.
+  rewrite IH. replace (start + u_len (m_unit m) - start) with (u_len (m_unit m)) by lia.
+  f_equal. unfold fin_unit.
+  assert (Hn : match combine r os with [] => 0 | (_, o') :: _ => o' - start end =
+               match r with [] => 0 | _ => u_len (m_unit m) end).
+  { destruct r as [|m2 r2]; [reflexivity|]. cbn [seq_offsets] in E.
+    destruct (seq_offsets (start + u_len (m_unit m) + u_len (m_unit m2)) r2). inversion E; subst. cbn. lia. }
+  rewrite Hn. destruct prevo; reflexivity.
+Qed.
+
+Lemma finalize_eq : forall ms start,
+  autofill_parse_offsets_finalize ms (stream_offsets start ms) = map (fin_len None) ms.
+Proof.
+  unfold autofill_parse_offsets_finalize.
+  induction ms as [|us r IH]; intros start; [reflexivity|].
+  cbn [stream_offsets]. destruct (seq_offsets start us) as [os e] eqn:E. cbn [combine map fst snd].
+  rewrite IH. f_equal. replace os with (fst (seq_offsets start us)) by (rewrite E; reflexivity).
+  apply (fin_seq_len us start None).
+Qed.
+
+Definition L0 : Z := 4294967295.
+Definition seq_prep (d : defaults) (us : list dunit) : list marked :=
+  map (po_unit d) (mv_seq d (pn_seq d L0 us)).
+Definition seq_out (d : defaults) (us : list dunit) : list dunit := fin_len None (seq_prep d us).
+
+(* every sequence is processed on its own: numbering, version and offsets all restart *)
+Lemma autofill_stream_per_sequence d start s : autofill_stream d start s = map (seq_out d) s.
+Proof.
+  unfold autofill_stream. rewrite finalize_eq. unfold prepare, autofill_parse_offsets, autofill_major_version,
+    autofill_picture_number. rewrite !map_map. apply map_ext. intros us. reflexivity.
+Qed.
+
+(* ---------- explicit_preserved ---------- *)
+Lemma fin_len_pres d : forall us prev, Forall2 unit_pres us (fin_len prev (map (po_unit d) us)).
+Proof.
+  induction us as [|u r IH]; intros prev; cbn [map fin_len]; constructor; auto.
+  pose proof (po_padaux_pres d u) as Hp.
+  set (n := match map (po_unit d) r with [] => 0 | _ => u_len (m_unit (po_unit d u)) end).
+  set (p := match prev with None => 0 | Some p => p end). clearbody n p.
+  unfold fin_unit, po_unit. cbn [m_unit m_npo_todo m_ppo_todo].
+  destruct (is_autoish (po_padaux d u)) eqn:Pn; destruct (is_autoish (u_ppo u)) eqn:Pp;
+  unfold unit_pres; cbn; splits; auto using af_pres_refl, sh_pres_refl, tp_pres_refl;
+  intros v Hv; try (rewrite Hv in Pp; discriminate);
+  try (rewrite (Hp v Hv) in Pn; discriminate); try (rewrite (Hp v Hv); reflexivity).
+Qed.
+
+Lemma seq_out_pres d us : Forall2 unit_pres us (seq_out d us).
+Proof.
+  unfold seq_out, seq_prep, mv_seq.
+  eapply Forall2_trans; [exact unit_pres_trans | apply pn_seq_pres |].
+  eapply Forall2_trans; [exact unit_pres_trans | apply mv_fill_pres |].
+  apply fin_len_pres.
+Qed.
+
+Theorem explicit_preserved d start s : Forall2 (Forall2 unit_pres) s (autofill_stream d start s).
+Proof.
+  rewrite autofill_stream_per_sequence. apply Forall2_map_r. apply seq_out_pres.
+Qed.
+
+(* ---------- offsets_true ---------- *)
+(* the fields the offset passes read are not touched by the number / version passes *)
+Definition same_po (u u' : dunit) : Prop :=
+  u_parse_code u' = u_parse_code u /\ u_npo u' = u_npo u /\ u_ppo u' = u_ppo u /\
+  u_aux_len u' = u_aux_len u /\ u_pad_len u' = u_pad_len u /\ u_len u' = u_len u.
+Lemma same_po_refl u : same_po u u.
+Proof. unfold same_po; splits; reflexivity. Qed.
+Lemma same_po_trans a b c : same_po a b -> same_po b c -> same_po a c.
+Proof. unfold same_po; intros (A1&A2&A3&A4&A5&A6) (B1&B2&B3&B4&B5&B6); splits; congruence. Qed.
+
+Lemma pn_seq_same_po d : forall us last, Forall2 same_po us (pn_seq d last us).
+Proof.
+  induction us as [|u r IH]; intros last; cbn [pn_seq]; [constructor|].
+  assert (H : same_po u (fst (pn_unit d last u))).
+  { unfold pn_unit. destruct (pn_kind u); cbn [fst]; unfold same_po; cbn; splits; reflexivity. }
+  destruct (pn_unit d last u) as [u' l']. constructor; auto.
+Qed.
+Lemma mv_fill_same_po d mv : forall us b, Forall2 same_po us (mv_fill d mv b us).
+Proof.
+  induction us as [|u r IH]; intros b; cbn [mv_fill]; [constructor|].
+  destruct (eff_parse_code d u =? PC_SEQUENCE_HEADER).
+  - destruct (mv_is_auto d (sh_major_version (u_sh u))); constructor; auto using same_po_refl.
+    unfold same_po; cbn; splits; reflexivity.
+  - constructor; auto. destruct (b && (mv <? 3)); auto using same_po_refl.
+    unfold drop_unit_etp. destruct (tp_select d u); unfold same_po; cbn; splits; reflexivity.
+Qed.
+
+Definition last_len (pre : list dunit) : Z := match rev pre with [] => 0 | p :: _ => u_len p end.
+
+Lemma last_len_snoc pre p : last_len (pre ++ [p]) = u_len p.
+Proof. unfold last_len. rewrite rev_app_distr. reflexivity. Qed.
+
+Lemma fin_len_nth d : forall pre prev u post,
+  nth_error (fin_len prev (map (po_unit d) (pre ++ u :: post))) (length pre) =
+  Some (fin_unit (po_unit d u)
+          (match post with [] => 0 | _ => u_len u end)
+          (match pre with [] => match prev with None => 0 | Some p => p end | _ => last_len pre end)).
+Proof.
+  induction pre as [|q pre IH]; intros prev u post.
+  - cbn [app map fin_len length nth_error]. f_equal. f_equal.
+    + destruct post; [reflexivity|]. cbn [map]. unfold po_unit. cbn [m_unit].
+      destruct (is_autoish (u_ppo u)); reflexivity.
+    (* second argument is syntactically equal *)
+  - cbn [app map fin_len length nth_error]. rewrite IH. f_equal. f_equal.
+    destruct pre as [|q2 pre2].
+    + unfold last_len. cbn. unfold po_unit. cbn [m_unit]. destruct (is_autoish (u_ppo q)); reflexivity.
+    + change (q :: q2 :: pre2) with ([q] ++ (q2 :: pre2)). unfold last_len. rewrite rev_app_distr.
+      destruct (rev (q2 :: pre2)) eqn:R; [|reflexivity].
+      apply (f_equal (@length _)) in R. rewrite rev_length in R. discriminate.
+Qed.
+
+Lemma fin_unit_npo d u post p :
+  u_npo (fin_unit (po_unit d u) (match post with [] => 0 | _ => u_len u end) p) = expected_npo d u post.
+Proof.
+  unfold fin_unit, po_unit, expected_npo, po_padaux, padaux_payload. cbn [m_unit m_npo_todo m_ppo_todo].
+  destruct (u_npo u) as [|v|] eqn:N; cbn [is_autoish];
+  destruct (u_parse_code u) as [pc|]; try destruct (pc =? PC_AUXILIARY_DATA); try destruct (pc =? PC_PADDING_DATA);
+  cbn [is_autoish]; destruct (is_autoish (u_ppo u)); cbn; try rewrite N; try reflexivity.
+Qed.
+
+Lemma fin_unit_ppo d u n pre :
+  u_ppo (fin_unit (po_unit d u) n (match pre with [] => 0 | _ => last_len pre end)) = expected_ppo u pre.
+Proof.
+  assert (E : match pre with [] => 0 | _ => last_len pre end = match rev pre with [] => 0 | p :: _ => u_len p end).
+  { destruct pre; reflexivity. }
+  rewrite E. unfold fin_unit, po_unit, expected_ppo. cbn [m_unit m_npo_todo m_ppo_todo].
+  destruct (u_ppo u) as [|v|] eqn:P; cbn [is_autoish]; destruct (is_autoish (po_padaux d u)); cbn; try rewrite P; reflexivity.
+Qed.
+
+Lemma Forall2_same_po_split : forall pre u post l,
+  Forall2 same_po (pre ++ u :: post) l ->
+  exists pre' u' post', l = pre' ++ u' :: post' /\ Forall2 same_po pre pre' /\ same_po u u' /\ Forall2 same_po post post'.
+Proof.
+  intros pre u post l H. apply Forall2_app_inv_l in H. destruct H as (pre' & l2 & H1 & H2 & ->).
+  inversion H2; subst. eauto 8.
+Qed.
+
+Lemma same_po_last_len : forall pre pre', Forall2 same_po pre pre' -> last_len pre' = last_len pre /\ length pre' = length pre.
+Proof.
+  intros pre pre' H. induction H as [|x y l l' Hxy Hl IH]; [split; reflexivity|].
+  destruct IH as [IH1 IH2]. split; [|cbn; lia].
+  destruct Hl as [|x2 y2 l2 l2' Hxy2 Hl2].
+  - unfold last_len; cbn. apply Hxy.
+  - change (y :: y2 :: l2') with ([y] ++ y2 :: l2'). change (x :: x2 :: l2) with ([x] ++ x2 :: l2).
+    unfold last_len in *. rewrite !rev_app_distr.
+    destruct (rev (y2 :: l2')) eqn:R1.
+    { apply (f_equal (@length _)) in R1. rewrite rev_length in R1. discriminate. }
+    destruct (rev (x2 :: l2)) eqn:R2.
+    { apply (f_equal (@length _)) in R2. rewrite rev_length in R2. discriminate. }
+    cbn. exact IH1.
+Qed.
+
+Lemma expected_npo_same d u u' post post' :
+  same_po u u' -> Forall2 same_po post post' -> expected_npo d u' post' = expected_npo d u post.
+Proof.
+  intros (A1&A2&A3&A4&A5&A6) HP. unfold expected_npo, padaux_payload. rewrite A1, A2, A4, A5, A6.
+  destruct HP; reflexivity.
+Qed.
+Lemma expected_ppo_same u u' pre pre' :
+  same_po u u' -> Forall2 same_po pre pre' -> expected_ppo u' pre' = expected_ppo u pre.
+Proof.
+  intros (A1&A2&A3&A4&A5&A6) HP. unfold expected_ppo. rewrite A3.
+  pose proof (same_po_last_len _ _ HP) as [H _]. unfold last_len in H. rewrite H. reflexivity.
+Qed.
+
+Theorem seq_offsets_true d pre u post :
+  exists u', nth_error (seq_out d (pre ++ u :: post)) (length pre) = Some u' /\
+             u_npo u' = expected_npo d u post /\ u_ppo u' = expected_ppo u pre.
+Proof.
+  unfold seq_out, seq_prep, mv_seq.
+  assert (H : Forall2 same_po (pre ++ u :: post)
+                (mv_fill d (seq_version d (pn_seq d L0 (pre ++ u :: post))) false (pn_seq d L0 (pre ++ u :: post)))).
+  { eapply Forall2_trans; [exact same_po_trans | apply pn_seq_same_po | apply mv_fill_same_po]. }
+  apply Forall2_same_po_split in H. destruct H as (pre' & u' & post' & -> & Hpre & Hu & Hpost).
+  pose proof (same_po_last_len _ _ Hpre) as [HL Hlen].
+  rewrite <- Hlen. rewrite fin_len_nth. eexists; split; [reflexivity|]. split.
+  - rewrite (fin_unit_npo d u' post'). apply expected_npo_same; assumption.
+  - etransitivity; [exact (fin_unit_ppo d u' _ pre') | apply expected_ppo_same; assumption].
+Qed.
+
+Theorem offsets_true d start s i us pre u post :
+  nth_error s i = Some us -> us = pre ++ u :: post ->
+  exists us' u', nth_error (autofill_stream d start s) i = Some us' /\
+                 nth_error us' (length pre) = Some u' /\
+                 u_npo u' = expected_npo d u post /\ u_ppo u' = expected_ppo u pre.
+Proof.
+  intros Hs ->. rewrite autofill_stream_per_sequence.
+  destruct (seq_offsets_true d pre u post) as (u' & H1 & H2 & H3).
+  exists (seq_out d (pre ++ u :: post)), u'. split; [|auto].
+  rewrite nth_error_map, Hs. reflexivity.
+Qed.
+
+(* next offset 0 exactly for the last unit (units occupy at least the 13 header bytes) *)
+Corollary npo_zero_iff_last d u post :
+  is_autoish (u_npo u) = true -> 0 < u_len u -> (forall n, padaux_payload d u = Some n -> 0 <= n) ->
+  (expected_npo d u post = Explicit 0 <-> post = [] /\ padaux_payload d u = None).
+Proof.
+  intros Ha Hl Hp. unfold expected_npo.
+  assert (G : match padaux_payload d u with
+              | Some n => Explicit (13 + n)
+              | None => Explicit match post with [] => 0 | _ :: _ => u_len u end
+              end = Explicit 0 <-> post = [] /\ padaux_payload d u = None).
+  { destruct (padaux_payload d u) as [n|] eqn:P.
+    - specialize (Hp n eq_refl). split.
+      + intros H. assert (H' : 13 + n = 0) by congruence. lia.
+      + intros [_ H]. discriminate.
+    - destruct post; split.
+      + auto.
+      + reflexivity.
+      + intros H. assert (H' : u_len u = 0) by congruence. lia.
+      + intros [H _]. discriminate. }
+  destruct (u_npo u); try discriminate; exact G.
+Qed.
+
+(* ---------- picnum_auto ---------- *)
+Definition M32 : Z := 4294967296.
+Lemma mask32_mod x : mask32 x = x mod M32.
+Proof. unfold mask32, M32. change 4294967295 with (Z.ones 32). rewrite Z.land_ones by lia. reflexivity. Qed.
+
+Definition pn_last (d : defaults) (last : Z) (us : list dunit) : Z :=
+  fold_left (fun l u => snd (pn_unit d l u)) us last.
+
+Lemma pn_seq_app d : forall pre last rest,
+  pn_seq d last (pre ++ rest) = pn_seq d last pre ++ pn_seq d (pn_last d last pre) rest.
+Proof.
+  induction pre as [|u r IH]; intros last rest; [reflexivity|].
+  cbn [app pn_seq pn_last fold_left]. destruct (pn_unit d last u) as [u' l'] eqn:E. cbn [snd].
+  rewrite IH. reflexivity.
+Qed.
+
+Lemma pn_seq_length d : forall us last, length (pn_seq d last us) = length us.
+Proof.
+  induction us as [|u r IH]; intros last; [reflexivity|]. cbn [pn_seq].
+  destruct (pn_unit d last u). cbn. rewrite IH. reflexivity.
+Qed.
+
+Lemma pn_kind_set_pic u f : pn_kind (set_pic_number u f) = pn_kind u.
+Proof. reflexivity. Qed.
+Lemma pn_kind_set_frag u f : pn_kind (set_frag_number u f) = pn_kind u.
+Proof. reflexivity. Qed.
+
+(* what one unit becomes, and the running `last_picture_number` afterwards *)
+Lemma pn_unit_number d last u :
+  let '(u', l') := pn_unit d last u in
+  match pn_kind u with
+  | PNOther => u' = u /\ l' = last /\ number_of u' = None
+  | _ => number_of u' = Some (pn_value d last u) /\ l' = pn_value d last u
+  end.
+Proof.
+  unfold pn_unit. destruct (pn_kind u) eqn:K.
+  - unfold number_of, pn_field. rewrite pn_kind_set_pic, K. cbn. auto.
+  - unfold number_of, pn_field. rewrite pn_kind_set_frag, K. cbn. auto.
+  - unfold number_of, pn_field. rewrite K. auto.
+Qed.
+
+(* the running value is the number of the closest preceding picture/fragment of the output *)
+Lemma pn_last_is_last_number d : forall pre last,
+  pn_last d last pre = last_number last (pn_seq d last pre).
+Proof.
+  induction pre as [|u r IH]; intros last; [reflexivity|].
+  cbn [pn_last fold_left pn_seq]. pose proof (pn_unit_number d last u) as H.
+  destruct (pn_unit d last u) as [u' l']. cbn [snd last_number].
+  fold (pn_last d l' r). rewrite IH. f_equal.
+  destruct (pn_kind u); [destruct H as [H1 H2]; rewrite H1; auto .. | destruct H as (_ & H2 & H3); rewrite H3; auto].
+Qed.
+
+Theorem seq_picnum_auto d pre u post :
+  let out := pn_seq d L0 (pre ++ u :: post) in
+  let prev := last_number L0 (firstn (length pre) out) in
+  exists u', nth_error out (length pre) = Some u' /\
+    match pn_kind u with
+    | PNOther => u' = u
+    | _ => number_of u' =
+           Some (match pn_field u with
+                 | Explicit v => v
+                 | _ => if pn_increment d u then (prev + 1) mod M32 else prev
+                 end)
+    end.
+Proof.
+  cbn zeta. rewrite pn_seq_app.
+  rewrite firstn_app, (pn_seq_length d pre L0), Nat.sub_diag, firstn_all2 by (rewrite pn_seq_length; lia).
+  cbn [firstn]. rewrite app_nil_r.
+  rewrite nth_error_app2 by (rewrite pn_seq_length; lia). rewrite pn_seq_length, Nat.sub_diag.
+  cbn [pn_seq]. pose proof (pn_unit_number d (pn_last d L0 pre) u) as H.
+  destruct (pn_unit d (pn_last d L0 pre) u) as [u' l']. cbn [nth_error]. exists u'. split; [reflexivity|].
+  rewrite <- pn_last_is_last_number.
+  destruct (pn_kind u) eqn:K.
+  - destruct H as [H _]. rewrite H. unfold pn_value. rewrite mask32_mod. reflexivity.
+  - destruct H as [H _]. rewrite H. unfold pn_value. rewrite mask32_mod. reflexivity.
+  - apply H.
+Qed.
+
+(* numbering restarts in every sequence: the stream pass is the sequence pass started from
+   (0 - 1) & 0xFFFFFFFF on each sequence *)
+Theorem picnum_restarts d s : autofill_picture_number d 0 s = map (pn_seq d L0) s.
+Proof. reflexivity. Qed.
+
+(* closed form when nothing is explicit: number = (pictures started so far - 1) mod 2^32 *)
+Lemma starts_app d a b : starts d (a ++ b) = starts d a + starts d b.
+Proof. unfold starts. rewrite filter_app, app_length. lia. Qed.
+
+Lemma pn_increment_other d u : pn_kind u = PNOther -> pn_increment d u = false.
+Proof. unfold pn_increment. intros ->. reflexivity. Qed.
+
+Lemma pn_last_all_auto d : forall pre k last,
+  pn_all_auto pre -> last = (k - 1) mod M32 ->
+  pn_last d last pre = (k + starts d pre - 1) mod M32.
+Proof.
+  induction pre as [|u r IH]; intros k last HA HL.
+  - cbn. unfold starts. cbn. rewrite HL. f_equal. lia.
+  - cbn [pn_last fold_left]. fold (pn_last d (snd (pn_unit d last u)) r).
+    assert (HAr : pn_all_auto r). { intros x Hx. apply HA. right; exact Hx. }
+    specialize (HA u (or_introl eq_refl)).
+    change (u :: r) with ([u] ++ r). rewrite starts_app.
+    pose proof (pn_unit_number d last u) as H. destruct (pn_unit d last u) as [u' l']. cbn [snd].
+    assert (E : l' = (k + starts d [u] - 1) mod M32).
+    { unfold starts. cbn [filter]. unfold is_pn_unit in HA. unfold pn_value in H.
+      destruct (pn_kind u) eqn:K.
+      - destruct H as [_ H]. specialize (HA eq_refl).
+        destruct (pn_field u); try discriminate; (destruct (pn_increment d u); cbn [length]; rewrite H, ?mask32_mod, HL; unfold M32; lia).
+      - destruct H as [_ H]. specialize (HA eq_refl).
+        destruct (pn_field u); try discriminate; (destruct (pn_increment d u); cbn [length]; rewrite H, ?mask32_mod, HL; unfold M32; lia).
+      - destruct H as (_ & H & _). rewrite (pn_increment_other d u K). cbn [length]. rewrite H, HL. f_equal. lia. }
+    rewrite (IH (k + starts d [u]) l' HAr E). f_equal. lia.
+Qed.
+
+Theorem seq_picnum_all_auto d pre u post :
+  pn_all_auto (pre ++ [u]) -> is_pn_unit u = true ->
+  exists u', nth_error (pn_seq d L0 (pre ++ u :: post)) (length pre) = Some u' /\
+             number_of u' = Some ((starts d (pre ++ [u]) - 1) mod M32).
+Proof.
+  intros HA HU.
+  rewrite pn_seq_app. rewrite nth_error_app2 by (rewrite pn_seq_length; lia). rewrite pn_seq_length, Nat.sub_diag.
+  cbn [pn_seq]. pose proof (pn_unit_number d (pn_last d L0 pre) u) as H.
+  destruct (pn_unit d (pn_last d L0 pre) u) as [u' l']. cbn [nth_error]. exists u'. split; [reflexivity|].
+  assert (HP : pn_all_auto pre). { intros x Hx. apply HA. apply in_or_app. left; exact Hx. }
+  assert (HUa : is_autoish (pn_field u) = true). { apply HA; [apply in_or_app; right; left; reflexivity | exact HU]. }
+  rewrite (pn_last_all_auto d pre 0 L0 HP eq_refl) in H.
+  rewrite starts_app. unfold starts at 2. cbn [filter]. unfold is_pn_unit in HU. unfold pn_value in H.
+  destruct (pn_kind u) eqn:K; try discriminate;
+  (destruct H as [H _]; rewrite H; f_equal;
+   destruct (pn_field u); try discriminate; (destruct (pn_increment d u); cbn [length]; rewrite ?mask32_mod; unfold M32; lia)).
+Qed.
+
+(* ---------- major_version ---------- *)
+Lemma lmax_app m a b : lmax m (a ++ b) = lmax (lmax m a) b.
+Proof. unfold lmax. apply fold_left_app. Qed.
+
+Lemma lmax_le_iff : forall l m x, lmax m l <= x <-> m <= x /\ forall f, In f l -> f <= x.
+Proof.
+  induction l as [|a l IH]; intros m x; cbn [lmax fold_left In].
+  - split; [intros H; split; [exact H | intros f []] | intros [H _]; exact H].
+  - fold (lmax (Z.max m a) l). rewrite IH. split.
+    + intros [H1 H2]. split; [lia|]. intros f [<-|Hf]; [lia | auto].
+    + intros [H1 H2]. split; [pose proof (H2 a (or_introl eq_refl)); lia | auto].
+Qed.
+Lemma lmax_ge_init m l : m <= lmax m l.
+Proof. exact (proj1 (proj1 (lmax_le_iff l m (lmax m l)) (Z.le_refl _))). Qed.
+Lemma lmax_ge_in m l f : In f l -> f <= lmax m l.
+Proof. intros H. apply (proj2 (proj1 (lmax_le_iff l m (lmax m l)) (Z.le_refl _))). exact H. Qed.
+
+Lemma max_opt_lmax mv imp o : max_opt mv imp o = lmax mv (val_preset_always imp o).
+Proof. destruct o; reflexivity. Qed.
+
+Lemma header_version_lmax d mv h : header_version d mv h = lmax mv (af_header_feats d h).
+Proof.
+  unfold header_version, af_header_feats. rewrite !max_opt_lmax.
+  rewrite !lmax_app. cbn [lmax fold_left].
+  destruct (preset_on (sh_color_spec h) (d_color_spec d)) as [i|]; [|reflexivity].
+  rewrite lmax_app. cbn [lmax fold_left]. destruct (i =? 0); [|reflexivity].
+  rewrite !max_opt_lmax, !lmax_app. reflexivity.
+Qed.
+
+Lemma unit_version_lmax d mv u : unit_version d mv u = lmax mv (af_unit_feats d u).
+Proof.
+  unfold unit_version, af_unit_feats. cbn [lmax fold_left].
+  destruct (eff_parse_code d u =? PC_SEQUENCE_HEADER).
+  - apply header_version_lmax.
+  - destruct (get_tp d u); reflexivity.
+Qed.
+
+(* the automatic version is the maximum of 1 and the implications of the listed features *)
+Theorem seq_version_is_max d us : seq_version d us = lmax MINIMUM_MAJOR_VERSION (af_feats d us).
+Proof.
+  unfold seq_version, af_feats. generalize MINIMUM_MAJOR_VERSION as m.
+  induction us as [|u r IH]; intros m; [reflexivity|].
+  cbn [fold_left flat_map]. rewrite lmax_app, IH, unit_version_lmax. reflexivity.
+Qed.
+
+(* facts about the TRANSLATED implication functions *)
+Lemma wavelet_imp_lt3 wi ho dho : wavelet_transform_version_implication wi ho dho < 3 -> ho = wi /\ dho = 0.
+Proof.
+  unfold wavelet_transform_version_implication.
+  destruct (dho =? 0) eqn:E1; cbn [negb]; [|lia]. destruct (wi =? ho) eqn:E2; cbn [negb]; lia.
+Qed.
+Lemma wavelet_imp_sym wi dho : dho = 0 -> wavelet_transform_version_implication wi wi dho = 1.
+Proof.
+  intros ->. unfold wavelet_transform_version_implication. cbn. rewrite Z.eqb_refl. reflexivity.
+Qed.
+Lemma wavelet_imp_le3 wi ho dho : wavelet_transform_version_implication wi ho dho <= 3.
+Proof.
+  unfold wavelet_transform_version_implication.
+  destruct (negb (dho =? 0)); [lia|]. destruct (negb (wi =? ho)); lia.
+Qed.
+Lemma tp_version_le3 d tp : tp_version d tp <= 3.
+Proof. unfold tp_version. destruct (tp_triple d tp) as [[wi ho] dho]. apply wavelet_imp_le3. Qed.
+Lemma tp_version_sym d tp : symmetric_tp d tp -> tp_version d tp = 1.
+Proof.
+  unfold symmetric_tp, tp_version. destruct (tp_triple d tp) as [[wi ho] dho]. intros [-> H]. apply wavelet_imp_sym; exact H.
+Qed.
+Lemma tp_version_lt3 d tp : tp_version d tp < 3 -> symmetric_tp d tp.
+Proof.
+  unfold symmetric_tp, tp_version. destruct (tp_triple d tp) as [[wi ho] dho]. apply wavelet_imp_lt3.
+Qed.
+
+Lemma imp_le3_fr i : preset_frame_rate_version_implication i <= 3.
+Proof. unfold preset_frame_rate_version_implication. destruct (i >? 11); lia. Qed.
+Lemma imp_le3_sr i : preset_signal_range_version_implication i <= 3.
+Proof. unfold preset_signal_range_version_implication. destruct (i >? 4); lia. Qed.
+Lemma imp_le3_cs i : preset_color_spec_version_implication i <= 3.
+Proof. unfold preset_color_spec_version_implication. destruct (i >? 4); lia. Qed.
+Lemma imp_le3_cp i : preset_color_primaries_version_implication i <= 3.
+Proof. unfold preset_color_primaries_version_implication. destruct (i >? 3); lia. Qed.
+Lemma imp_le3_cm i : preset_color_matrix_version_implication i <= 3.
+Proof. unfold preset_color_matrix_version_implication. destruct (i >? 3); lia. Qed.
+Lemma imp_le3_tf i : preset_transfer_function_version_implication i <= 3.
+Proof. unfold preset_transfer_function_version_implication. destruct (i >? 3); lia. Qed.
+Lemma imp_le3_pc i : parse_code_version_implication i <= 3.
+Proof. unfold parse_code_version_implication. destruct (is_fragment _); lia. Qed.
+Lemma imp_le3_profile i : profile_version_implication i <= 3.
+Proof. unfold profile_version_implication. destruct (i =? 3); lia. Qed.
+
+Lemma in_always imp o f : In f (val_preset_always imp o) -> exists i, f = imp i.
+Proof. destruct o; cbn; [intros [<-|[]]; eauto | intros []]. Qed.
+
+Lemma af_header_feats_le3 d h f : In f (af_header_feats d h) -> f <= 3.
+Proof.
+  unfold af_header_feats. intros H.
+  repeat (apply in_app_or in H; destruct H as [H|H]).
+  - destruct H as [<-|[]]. apply imp_le3_profile.
+  - apply in_always in H. destruct H as [i ->]. apply imp_le3_fr.
+  - apply in_always in H. destruct H as [i ->]. apply imp_le3_sr.
+  - destruct (preset_on (sh_color_spec h) (d_color_spec d)) as [i|]; [|destruct H].
+    apply in_app_or in H; destruct H as [H|H].
+    + destruct H as [<-|[]]. apply imp_le3_cs.
+    + destruct (i =? 0); [|destruct H].
+      repeat (apply in_app_or in H; destruct H as [H|H]); apply in_always in H; destruct H as [j ->];
+      auto using imp_le3_cp, imp_le3_cm, imp_le3_tf.
+Qed.
+
+(* validator's header logs vs autofill's header features: the same, except that autofill also
+   evaluates the frame-rate / signal-range / colour-spec implication at index 0 (custom values),
+   which is the minimum *)
+Lemma in_val_preset imp o f : In f (val_preset imp o) -> In f (val_preset_always imp o).
+Proof. destruct o as [i|]; cbn; [destruct (i =? 0); cbn; tauto | tauto]. Qed.
+Lemma in_always_val imp o f : In f (val_preset_always imp o) -> In f (val_preset imp o) \/ f = imp 0.
+Proof.
+  destruct o as [i|]; cbn; [|tauto]. destruct (i =? 0) eqn:E; cbn; [|tauto].
+  intros [<-|[]]. right. f_equal. lia.
+Qed.
+
+Lemma val_header_in_af d h f : In f (val_header_logs d h) -> In f (af_header_feats d h).
+Proof.
+  unfold val_header_logs, af_header_feats. intros H.
+  apply in_app_or in H; destruct H as [H|H]; [apply in_or_app; left; exact H|]. apply in_or_app; right.
+  apply in_app_or in H; destruct H as [H|H]; [apply in_or_app; left; apply in_val_preset; exact H|]. apply in_or_app; right.
+  apply in_app_or in H; destruct H as [H|H]; [apply in_or_app; left; apply in_val_preset; exact H|]. apply in_or_app; right.
+  destruct (preset_on (sh_color_spec h) (d_color_spec d)) as [i|]; [|exact H].
+  apply in_or_app. destruct (i =? 0); [right; exact H | left; exact H].
+Qed.
+
+Lemma af_header_in_val d h f : In f (af_header_feats d h) -> In f (val_header_logs d h) \/ f = 1.
+Proof.
+  unfold val_header_logs, af_header_feats. intros H.
+  apply in_app_or in H; destruct H as [H|H]; [left; apply in_or_app; left; exact H|].
+  apply in_app_or in H; destruct H as [H|H].
+  { apply in_always_val in H. destruct H as [H|H]; [left; apply in_or_app; right; apply in_or_app; left; exact H | right; exact H]. }
+  apply in_app_or in H; destruct H as [H|H].
+  { apply in_always_val in H. destruct H as [H|H]; [left; apply in_or_app; right; apply in_or_app; right; apply in_or_app; left; exact H | right; exact H]. }
+  destruct (preset_on (sh_color_spec h) (d_color_spec d)) as [i|]; [|destruct H].
+  apply in_app_or in H; destruct H as [H|H].
+  - destruct H as [<-|[]]. destruct (i =? 0) eqn:E.
+    + right. replace i with 0 by lia. reflexivity.
+    + left. do 3 (apply in_or_app; right). left; reflexivity.
+  - destruct (i =? 0); [|destruct H]. left. do 3 (apply in_or_app; right). exact H.
+Qed.
+
+Lemma get_tp_val d u : (eff_parse_code d u =? PC_SEQUENCE_HEADER) = false ->
+  get_tp d u = if val_has_tp d u then Some (val_tp d u) else None.
+Proof.
+  intros H. unfold get_tp, tp_select, val_has_tp, val_tp. rewrite H. cbn [negb andb].
+  destruct (is_picture_pc (eff_parse_code d u)); cbn [orb]; [reflexivity|].
+  destruct (is_fragment_pc (eff_parse_code d u) && (getd (u_frag_slice_count u) (d_frag_slice_count d) =? 0)); reflexivity.
+Qed.
+Lemma val_has_tp_not_header d u : val_has_tp d u = true -> (eff_parse_code d u =? PC_SEQUENCE_HEADER) = false.
+Proof. unfold val_has_tp. destruct (eff_parse_code d u =? PC_SEQUENCE_HEADER); [discriminate|reflexivity]. Qed.
+
+Lemma val_checked_in_af d u f : In f (val_unit_checked d u) -> In f (af_unit_feats d u).
+Proof.
+  unfold val_unit_checked, af_unit_feats. intros [H|H]; [left; exact H|]. right.
+  destruct (eff_parse_code d u =? PC_SEQUENCE_HEADER); [apply val_header_in_af; exact H | destruct H].
+Qed.
+Lemma val_tp_in_af d u : val_has_tp d u = true -> In (tp_version d (val_tp d u)) (af_unit_feats d u).
+Proof.
+  intros H. unfold af_unit_feats. right. rewrite (val_has_tp_not_header d u H), (get_tp_val d u (val_has_tp_not_header d u H)), H.
+  left; reflexivity.
+Qed.
+Lemma af_feats_cases d u f : In f (af_unit_feats d u) ->
+  In f (val_unit_checked d u) \/ f = 1 \/ (val_has_tp d u = true /\ f = tp_version d (val_tp d u)).
+Proof.
+  unfold af_unit_feats, val_unit_checked. intros [H|H]; [left; left; exact H|].
+  destruct (eff_parse_code d u =? PC_SEQUENCE_HEADER) eqn:E.
+  - apply af_header_in_val in H. destruct H as [H|H]; [left; right; exact H | right; left; exact H].
+  - rewrite (get_tp_val d u E) in H. destruct (val_has_tp d u); [|destruct H].
+    destruct H as [<-|[]]. right; right; split; reflexivity.
+Qed.
+Lemma af_unit_feats_le3 d u f : In f (af_unit_feats d u) -> f <= 3.
+Proof.
+  unfold af_unit_feats. intros [<-|H]; [apply imp_le3_pc|].
+  destruct (eff_parse_code d u =? PC_SEQUENCE_HEADER); [eapply af_header_feats_le3; exact H|].
+  destruct (get_tp d u); [destruct H as [<-|[]]; apply tp_version_le3 | destruct H].
+Qed.
+
+Lemma min_is_1 : MINIMUM_MAJOR_VERSION = 1.
+Proof. reflexivity. Qed.
+
+Lemma seq_version_bounds d us : 1 <= seq_version d us <= 3.
+Proof.
+  rewrite seq_version_is_max. split.
+  - rewrite <- min_is_1 at 1. apply lmax_ge_init.
+  - apply lmax_le_iff. split; [rewrite min_is_1; lia|]. intros f Hf. unfold af_feats in Hf.
+    apply in_flat_map in Hf. destruct Hf as (u & _ & Hf). eapply af_unit_feats_le3; exact Hf.
+Qed.
+
+Definition codable_at (d : defaults) (v : Z) (u : dunit) : Prop :=
+  3 <= v \/ (val_has_tp d u = true -> symmetric_tp d (val_tp d u)).
+Lemma etp_codable_at d v us u : etp_codable d v us -> In u us -> codable_at d v u.
+Proof. intros [H|H] Hu; [left; exact H | right; intros Ht; apply H; assumption]. Qed.
+
+(* what the validator expects = what autofill computes, whenever the description can be coded *)
+Lemma val_expected_eq d v us : etp_codable d v us -> val_expected d v us = seq_version d us.
+Proof.
+  intros HC. unfold val_expected. rewrite seq_version_is_max. apply Z.le_antisymm.
+  - apply lmax_le_iff. split; [apply lmax_ge_init|]. intros f Hf. apply lmax_ge_in.
+    unfold val_logged in Hf. apply in_flat_map in Hf. destruct Hf as (u & Hu & Hf).
+    unfold af_feats. apply in_flat_map. exists u. split; [exact Hu|].
+    apply in_app_or in Hf. destruct Hf as [Hf|Hf]; [apply val_checked_in_af; exact Hf|].
+    unfold val_unit_etp in Hf. destruct (val_has_tp d u) eqn:T; cbn [andb] in Hf; [|destruct Hf].
+    destruct (3 <=? v); [|destruct Hf]. destruct Hf as [<-|[]]. apply val_tp_in_af; exact T.
+  - apply lmax_le_iff. split; [apply lmax_ge_init|]. intros f Hf.
+    unfold af_feats in Hf. apply in_flat_map in Hf. destruct Hf as (u & Hu & Hf).
+    apply af_feats_cases in Hf. destruct Hf as [Hf|[->|[T ->]]].
+    + apply lmax_ge_in. unfold val_logged. apply in_flat_map. exists u. split; [exact Hu|]. apply in_or_app; left; exact Hf.
+    + rewrite <- min_is_1 at 1. apply lmax_ge_init.
+    + destruct (etp_codable_at d v us u HC Hu) as [H3|HS].
+      * apply lmax_ge_in. unfold val_logged. apply in_flat_map. exists u. split; [exact Hu|]. apply in_or_app; right.
+        unfold val_unit_etp. rewrite T. replace (3 <=? v) with true by lia. left; reflexivity.
+      * rewrite (tp_version_sym d _ (HS T)). rewrite <- min_is_1 at 1. apply lmax_ge_init.
+Qed.
+
+Lemma checked_le_seq_version d us f : In f (val_checked d us) -> f <= seq_version d us.
+Proof.
+  intros Hf. rewrite seq_version_is_max. apply lmax_ge_in. unfold val_checked in Hf.
+  apply in_flat_map in Hf. destruct Hf as (u & Hu & Hf). unfold af_feats. apply in_flat_map.
+  exists u. split; [exact Hu | apply val_checked_in_af; exact Hf].
+Qed.
+
+(* the automatic version can code the description: below 3 every transform is symmetric *)
+Lemma seq_version_codable d us : etp_codable d (seq_version d us) us.
+Proof.
+  destruct (Z_lt_le_dec (seq_version d us) 3) as [H|H]; [right | left; exact H].
+  intros u Hu T. apply tp_version_lt3. eapply Z.le_lt_trans; [|exact H].
+  rewrite seq_version_is_max. apply lmax_ge_in. unfold af_feats. apply in_flat_map. exists u. split; [exact Hu|].
+  apply val_tp_in_af; exact T.
+Qed.
+
+Theorem major_version_agrees d us v' :
+  etp_codable d v' us ->
+  (val_version_ok d v' us <-> v' = seq_version d us \/ (v' = 3 /\ val_npics d us = 0)).
+Proof.
+  intros HC. pose proof (seq_version_bounds d us) as HB. unfold val_version_ok. rewrite (val_expected_eq d v' us HC), min_is_1.
+  split.
+  - intros (H1 & H2 & H3). destruct H3 as [[H3 H4]|H3]; [right; split; assumption|]. left.
+    apply Z.le_antisymm; [exact H3|]. rewrite seq_version_is_max. apply lmax_le_iff. split; [rewrite min_is_1; exact H1|].
+    intros f Hf. unfold af_feats in Hf. apply in_flat_map in Hf. destruct Hf as (u & Hu & Hf).
+    apply af_feats_cases in Hf. destruct Hf as [Hf|[->|[T ->]]].
+    + apply H2. unfold val_checked. apply in_flat_map. exists u. split; assumption.
+    + exact H1.
+    + destruct (etp_codable_at d v' us u HC Hu) as [H5|HS].
+      * pose proof (tp_version_le3 d (val_tp d u)). lia.
+      * rewrite (tp_version_sym d _ (HS T)). exact H1.
+  - intros [->|[-> HN]].
+    + split; [lia|]. split; [apply checked_le_seq_version | right; lia].
+    + split; [lia|]. split; [|left; split; [exact HN | reflexivity]].
+      intros f Hf. apply checked_le_seq_version in Hf. lia.
+Qed.
+
+(* ... hence it is the least version the validator's rules accept *)
+Theorem major_version_least d us :
+  let v := seq_version d us in
+  etp_codable d v us /\ val_version_ok d v us /\
+  forall v', etp_codable d v' us -> val_version_ok d v' us -> v <= v'.
+Proof.
+  cbn zeta. split; [apply seq_version_codable|]. split.
+  - apply (major_version_agrees d us _ (seq_version_codable d us)). left; reflexivity.
+  - intros v' HC HV. apply (major_version_agrees d us v' HC) in HV. pose proof (seq_version_bounds d us).
+    destruct HV as [->|[-> _]]; lia.
+Qed.
+
+(* every automatic major_version field of the sequence receives that value *)
+Lemma mv_fill_headers d mv : forall us b,
+  Forall2 (fun u u' => (eff_parse_code d u =? PC_SEQUENCE_HEADER) = true ->
+                       mv_is_auto d (sh_major_version (u_sh u)) = true ->
+                       sh_major_version (u_sh u') = Explicit mv) us (mv_fill d mv b us).
+Proof.
+  induction us as [|u r IH]; intros b; cbn [mv_fill]; [constructor|].
+  destruct (eff_parse_code d u =? PC_SEQUENCE_HEADER) eqn:E.
+  - destruct (mv_is_auto d (sh_major_version (u_sh u))) eqn:A; constructor; auto; intros; try reflexivity; congruence.
+  - constructor; auto. intros; congruence.
+Qed.
+Theorem mv_headers_filled d us :
+  Forall2 (fun u u' => (eff_parse_code d u =? PC_SEQUENCE_HEADER) = true ->
+                       mv_is_auto d (sh_major_version (u_sh u)) = true ->
+                       sh_major_version (u_sh u') = Explicit (seq_version d us)) us (mv_seq d us).
+Proof. apply mv_fill_headers. Qed.
+
+(* extended_transform_parameters is removed only from a transform that is symmetric *)
+Definition etp_ok (d : defaults) (u u' : dunit) : Prop :=
+  forall tp, get_tp d u = Some tp ->
+    exists tp', get_tp d u' = Some tp' /\ t_wavelet_index tp' = t_wavelet_index tp /\
+                (t_etp tp' = t_etp tp \/ (t_etp tp' = None /\ symmetric_tp d tp)).
+
+Lemma etp_ok_refl d u : etp_ok d u u.
+Proof. intros tp H. exists tp. auto. Qed.
+
+Lemma get_tp_header d u : (eff_parse_code d u =? PC_SEQUENCE_HEADER) = true -> get_tp d u = None.
+Proof.
+  intros H. unfold get_tp, tp_select. unfold PC_SEQUENCE_HEADER in H.
+  replace (eff_parse_code d u) with 0 by lia. reflexivity.
+Qed.
+
+Lemma etp_ok_drop d mv u :
+  mv < 3 -> (val_has_tp d u = true -> tp_version d (val_tp d u) <= mv) -> etp_ok d u (drop_unit_etp d u).
+Proof.
+  intros Hlt HB tp Htp.
+  assert (E : (eff_parse_code d u =? PC_SEQUENCE_HEADER) = false).
+  { destruct (eff_parse_code d u =? PC_SEQUENCE_HEADER) eqn:E; [|reflexivity].
+    rewrite (get_tp_header d u E) in Htp. discriminate. }
+  assert (Hs : symmetric_tp d tp).
+  { apply tp_version_lt3. eapply Z.le_lt_trans; [|exact Hlt].
+    rewrite (get_tp_val d u E) in Htp. destruct (val_has_tp d u) eqn:T; [|discriminate].
+    inversion Htp; subst. apply HB. reflexivity. }
+  unfold drop_unit_etp, get_tp in *. destruct (tp_select d u) eqn:S.
+  - assert (S' : tp_select d (set_pic_tp u (drop_etp (u_pic_tp u))) = TPpic) by exact S.
+    rewrite S'. inversion Htp; subst. eexists; split; [reflexivity|]. cbn. auto.
+  - assert (S' : tp_select d (set_frag_tp u (drop_etp (u_frag_tp u))) = TPfrag) by exact S.
+    rewrite S'. inversion Htp; subst. eexists; split; [reflexivity|]. cbn. auto.
+  - discriminate.
+Qed.
+
+Lemma mv_fill_etp d mv : forall us b,
+  (forall u, In u us -> val_has_tp d u = true -> tp_version d (val_tp d u) <= mv) ->
+  Forall2 (etp_ok d) us (mv_fill d mv b us).
+Proof.
+  induction us as [|u r IH]; intros b H; cbn [mv_fill]; [constructor|].
+  assert (Hr : forall x, In x r -> val_has_tp d x = true -> tp_version d (val_tp d x) <= mv).
+  { intros x Hx. apply H. right; exact Hx. }
+  destruct (eff_parse_code d u =? PC_SEQUENCE_HEADER) eqn:E.
+  - destruct (mv_is_auto d (sh_major_version (u_sh u))); constructor; auto using etp_ok_refl.
+    intros tp Htp. rewrite (get_tp_header d u E) in Htp. discriminate.
+  - constructor; auto. destruct (b && (mv <? 3)) eqn:C; [|apply etp_ok_refl].
+    apply (etp_ok_drop d mv); [lia | apply H; left; reflexivity].
+Qed.
+
+Theorem etp_removed_only_if_symmetric d us : Forall2 (etp_ok d) us (mv_seq d us).
+Proof.
+  unfold mv_seq. apply mv_fill_etp. intros u Hu T.
+  rewrite seq_version_is_max. apply lmax_ge_in. unfold af_feats. apply in_flat_map. exists u.
+  split; [exact Hu | apply val_tp_in_af; exact T].
 Qed.
